@@ -19,7 +19,7 @@ PROP = dict(
          "combinations of the three activity bits x every embedded contract (+ unknown contract, + user address) x every ABI selector (+ foreign, random, short); "
          "GotAllActiveSporksImplemented on generated spork sets / implemented sets. "
          "node: real node, 3-5 sporks created at random heights, roles (accelerator/htlc/bridge/none) assigned at random, activated in random order (incl. twice, wrong key, unknown id); "
-         "at every height (so just below / at / above each enforcement height) and on historical stores: IsSporkActive, GetEmbeddedMethod on the real context and full ApplyBlock of gated sends; "
+         "at every height (so just below / at / above each enforcement height) and on historical stores: IsSporkActive, GetEmbeddedMethod on the real context and full ApplyBlock of gated sends; HTLC creates that execute or refund; a follower node fed by InsertChain in random batches compared at every height; "
          "halt: child processes with an unknown activated spork (must exit 2 at the enforcement height and again on restart) and a control. A case is distinct by (function, input)",
     explanation="Theorems: a spork is active for a block iff the acknowledged store (height > 1) holds an activated entry with enforcement <= its height, and stays active at later momentums; "
                 "the method table is a function of three activity bits of the acknowledged store, so send-time validation and receive-time execution agree and an accepted send is never refunded for a missing method later; "
@@ -36,6 +36,6 @@ META = dict(
          "dumped from the running binary, and the halt check; compared with the real code on every run. Tests only use a feature well after activation on one node; the theorems cover every height and every order of activation.",
     design_ref="DESIGN.md section 5, C17; section 6 F12",
     note="Trusted: Coq kernel; constdump (tables); harness. Known finding F12: method tables are nested, so bridge/liquidity/accelerator methods are available with only the HTLC spork enforced (refuted + partial theorem). "
-         "Agreement between nodes is by construction (function of the acknowledged store) plus C07 for the store itself; a second syncing node is not driven by this harness.",
+         "Agreement between nodes is by construction (function of the acknowledged store) plus C07 for the store itself; a follower node fed by InsertChain is compared with the producer at every height (oracle).",
     technique="Coq proof (case analysis over the if-chain, induction over spork lists and chains; table facts by vm_compute on regenerated tables) + differential correspondence check",
 )
